@@ -1,6 +1,8 @@
 package c10
 
 import (
+	"unicode/utf8"
+
 	"encoding/json"
 	"fmt"
 	"math"
@@ -11,6 +13,7 @@ import (
 	"sync"
 	"time"
 
+	"github.com/tidwall/tile38/verif/harness/ev"
 	"github.com/tidwall/tile38/verif/harness/t38"
 	"pgregory.net/rapid"
 )
@@ -69,6 +72,21 @@ type psCase struct {
 	// JSONSubs[i]: subscriber i switches to OUTPUT json first; its messages
 	// then arrive as bare JSON documents without channel attribution
 	JSONSubs []bool `json:"json_subs,omitempty"`
+	// ChanTail / FenceTail: per plain channel / fence channel an index into
+	// hostileTail, appended to the generated name (0 = plain)
+	ChanTail  []int `json:"chan_tail,omitempty"`
+	FenceTail []int `json:"fence_tail,omitempty"`
+}
+
+// allowInvalidNames: fence-channel and hook names that are not valid UTF-8
+// are generated unless that shape is excluded as a known finding.
+var allowInvalidNames = !ev.KnownActive(findingNameUTF8)
+
+func tailOf(ix []int, i int) string {
+	if i < len(ix) && ix[i] >= 0 && ix[i] < len(hostileTail) {
+		return hostileTail[ix[i]]
+	}
+	return ""
 }
 
 var chanSuffix = []string{"a", "b", "ab"}
@@ -106,6 +124,10 @@ func drawPause(rt *rapid.T, label string) int {
 func drawPSCase(rt *rapid.T, maxPubOps, maxLives int) psCase {
 	var p psCase
 	p.NChan = rapid.IntRange(1, 3).Draw(rt, "nchan")
+	for i := 0; i < p.NChan; i++ {
+		// a plain PUBLISH never goes through JSON: any bytes are fine here
+		p.ChanTail = append(p.ChanTail, drawTail(rt, "chantail", true))
+	}
 	npat := rapid.IntRange(0, 3).Draw(rt, "npat")
 	seen := map[string]bool{}
 	for i := 0; i < npat; i++ {
@@ -118,6 +140,7 @@ func drawPSCase(rt *rapid.T, maxPubOps, maxLives int) psCase {
 	nf := rapid.IntRange(0, 2).Draw(rt, "nfence")
 	for i := 0; i < nf; i++ {
 		p.Fences = append(p.Fences, drawFence(rt, fmt.Sprintf("f%d", i)))
+		p.FenceTail = append(p.FenceTail, drawTail(rt, "fencetail", allowInvalidNames))
 	}
 	nlive := 0
 	switch x := rapid.IntRange(0, 11).Draw(rt, "live"); {
@@ -455,7 +478,7 @@ func (s *subRunner) jsonValue(v t38.Value, t int64) (stop bool) {
 	case obj.Detect != "":
 		s.dels = append(s.dels, delivery{T: t, Sub: "?", Payload: v.Str})
 	case obj.OK != nil && *obj.OK && subCmdRev[obj.Command]:
-		if len(s.pending) == 0 || s.pending[0].Cmd != obj.Command || s.pending[0].Name != obj.Channel {
+		if len(s.pending) == 0 || s.pending[0].Cmd != obj.Command || jsonRoundTrip(s.pending[0].Name) != obj.Channel {
 			s.err = "acknowledgement out of sequence: " + v.Str
 			return true
 		}
@@ -800,10 +823,10 @@ func runPubSub(p psCase) *outcome {
 
 	var names []string // channel universe
 	for i := 0; i < p.NChan; i++ {
-		names = append(names, pfx+chanSuffix[i])
+		names = append(names, pfx+chanSuffix[i]+tailOf(p.ChanTail, i))
 	}
 	for i := range p.Fences {
-		names = append(names, pfx+fenceSuffix[i])
+		names = append(names, pfx+fenceSuffix[i]+tailOf(p.FenceTail, i))
 	}
 	fenceNames := names[p.NChan:]
 	pats := make([]string, len(p.Pats))
@@ -982,6 +1005,18 @@ type psRun struct {
 	liveW      [][]*emission
 }
 
+// hookName maps the "hook" member of a notification back to the fence
+// channel's real name: inside JSON a name that is not valid UTF-8 can only
+// appear with U+FFFD in place of the offending bytes.
+func (r *psRun) hookName(inJSON string) string {
+	for _, fn := range r.fenceNames {
+		if jsonRoundTrip(fn) == inJSON {
+			return fn
+		}
+	}
+	return inJSON
+}
+
 // hangOrFail turns "nothing arrived within the 30 s budget" into a violation
 // only when this process was not itself starved meanwhile.
 func (r *psRun) hangOrFail(key, format string, a ...any) {
@@ -1151,6 +1186,13 @@ func (r *psRun) buildUnits() bool {
 	// fence units in log order
 	r.liveExp = make([][]string, len(r.p.Lives))
 	r.liveW = make([][]*emission, len(r.p.Lives))
+	for _, fn := range r.fenceNames {
+		if !utf8.ValidString(fn) {
+			o.label("fence-channel-name-not-utf8")
+		} else if fn != jsonRoundTrip(fn) || strings.ContainsAny(fn, " \"\x00\t\\") || len(fn) > 1000 {
+			o.label("fence-channel-name-hostile")
+		}
+	}
 	pos := map[int]int{}
 	perFence := map[int]int{}
 	eidx := 0
@@ -1376,7 +1418,7 @@ func (r *psRun) checkSubscriber(s *subRunner, byKey map[string]*unit, overlaps *
 				o.fail("unknown-message", "subscriber %d received a message nobody published: %q on %s", s.idx, d.Payload, d.Channel)
 				return false
 			}
-			ukey = fenceKey(seq, m.Hook, m.Detect)
+			ukey = fenceKey(seq, r.hookName(m.Hook), m.Detect)
 		}
 		u := byKey[ukey]
 		if u == nil {
@@ -1430,7 +1472,11 @@ func (r *psRun) checkSubscriber(s *subRunner, byKey map[string]*unit, overlaps *
 				u.lower++
 				u.upper++
 				if n != 1 {
-					o.fail("lost", "subscriber %d: subscription %s was acknowledged before %s was sent and not cancelled before it was answered, but the message was not delivered",
+					key := "lost"
+					if !u.IsPub && !utf8.ValidString(u.Channel) && n == 0 {
+						key = findingNameUTF8
+					}
+					o.fail(key, "subscriber %d: subscription %q was acknowledged before %q was sent and not cancelled before it was answered, but the message was not delivered",
 						s.idx, sk, u.Key)
 					return false
 				}
@@ -1473,7 +1519,7 @@ func (r *psRun) checkJSONSubscriber(s *subRunner, byKey map[string]*unit, tls ma
 				o.fail("unknown-message", "JSON-mode subscriber %d received a message nobody published: %q", s.idx, d.Payload)
 				return false
 			}
-			ukey = fenceKey(seq, m.Hook, m.Detect)
+			ukey = fenceKey(seq, r.hookName(m.Hook), m.Detect)
 		}
 		u := byKey[ukey]
 		if u == nil {
